@@ -1300,7 +1300,7 @@ _INHERENT_IMPL_ELSEWHERE = re.compile(r"(?:[A-Za-z_][A-Za-z0-9_]*::)+<impl ((?:[
 
 
 class Crate:
-    def __init__(self, path, local_prefix, renames=None, field_renames=None):
+    def __init__(self, path, local_prefix, renames=None, field_renames=None, shapes=None):
         with open(path) as fh:
             text = fh.read()
         text = text.replace("crate::", local_prefix + "::")
@@ -1310,10 +1310,13 @@ class Crate:
         text = _INHERENT_IMPL_ELSEWHERE.sub(
             lambda m: (m.group(1) + "::") if m.group(0).startswith(local_prefix + "::")
             and m.group(1).startswith(local_prefix + "::") else m.group(0), text)
-        for (actual, expected) in (renames or []):
-            # an item the rules know by its path was moved to another module (`mod gc;` split out of store/mod.rs): it is given its
-            # old name back everywhere (definitions, call sites, closures below it), so that every rule reads the tree as before
-            text = text.replace(actual, expected)
+        if renames:
+            # an item the rules know by its path was moved to another module (`mod gc;` split out of store/mod.rs) or, being private,
+            # renamed (xsvlib/baseline.py): it is given its old name back everywhere (definitions, call sites, closures below it), so
+            # that every rule reads the tree as before.  One pass, longest path first, whole path segments only.
+            table = dict(renames)
+            rx = re.compile("(" + "|".join(re.escape(a) for a in sorted(table, key=lambda x: -len(x))) + r")(?![A-Za-z0-9_])")
+            text = rx.sub(lambda m: table[m.group(1)], text)
         for (adt, actual, expected) in (field_renames or []):
             # a private field the rules know by name was renamed: it is given its old name back (projections, struct literals, the
             # type's own definition below)
@@ -1321,6 +1324,9 @@ class Crate:
             text = re.sub(r'"adt":"%s","variant":"[^"]*","vidx":\d+,"fields":\[[^\]]*\]' % re.escape(adt),
                           lambda m: m.group(0).replace('"%s"' % actual, '"%s"' % expected), text)
         j = json.loads(text)
+        if shapes:
+            from . import baseline
+            baseline.apply_shapes(j, shapes)
         for (adt, actual, expected) in (field_renames or []):
             for a in j["adts"]:
                 if a["def"] == adt:
@@ -1356,11 +1362,23 @@ class Facts:
         self.lib = Crate(os.path.join(d, "xs-lib.json"), "xs")
         self.bin = Crate(os.path.join(d, "xs-bin.json"), "xsbin")
         self.crates = [self.lib, self.bin]
+        self.inlined = []
         self.renames = self._moved_items()
         self.field_renames = self._renamed_fields()
-        if self.renames or self.field_renames:
-            self.lib = Crate(os.path.join(d, "xs-lib.json"), "xs", self.renames, self.field_renames)
-            self.bin = Crate(os.path.join(d, "xs-bin.json"), "xsbin", self.renames, self.field_renames)
+        # private items the rules name that were renamed (not merely moved): matched against the frozen baseline by shape / signature
+        from . import baseline
+        base = baseline.load()
+        moved_to = {e for (a, e) in self.renames}
+        adt_paths, self.shapes = baseline.match_adts(self, base)
+        adt_paths = [(a, e) for (a, e) in adt_paths if e not in moved_to and not any(a == x for (x, _) in self.renames)]
+        fn_paths = baseline.match_fns(self, {"fns": {n: i for n, i in base["fns"].items() if n not in moved_to}, "adts": base["adts"]},
+                                      adt_paths + list(self.renames))
+        fn_paths = [(a, e) for (a, e) in fn_paths if not any(a == x or a.startswith(x + "::") for (x, _) in self.renames)]
+        self.renamed_private = adt_paths + fn_paths
+        self.renames = list(self.renames) + self.renamed_private
+        if self.renames or self.field_renames or self.shapes:
+            self.lib = Crate(os.path.join(d, "xs-lib.json"), "xs", self.renames, self.field_renames, self.shapes)
+            self.bin = Crate(os.path.join(d, "xs-bin.json"), "xsbin", self.renames, self.field_renames, self.shapes)
             self.crates = [self.lib, self.bin]
         self.lib.siblings = self.crates
         self.bin.siblings = self.crates
